@@ -219,6 +219,48 @@ impl C15 {
                 true,
             ));
         }
+        // topping up a position THROUGH the pool manager (its only delegate): a locked deposit naming
+        // an existing position must only ever add to the depositor's own position
+        for p in obs.positions.iter().filter(|p| p.open).take(3) {
+            if let Some(pool) = obs.pool_by_lp(&p.lp_asset.denom) {
+                let pi = &pool.pool_info;
+                if pi.assets.iter().any(|a| a.amount.is_zero()) {
+                    continue;
+                }
+                let pid = pi.pool_identifier.clone();
+                let posid = p.identifier.clone();
+                let dur = p.unlocking_duration;
+                // single asset (2-asset pools only) and all assets in pool proportion
+                let mut variants: Vec<(String, Vec<Coin>)> = vec![];
+                if pi.assets.len() == 2 {
+                    let a0 = &pi.assets[0];
+                    variants.push(("single".into(), vec![coin((a0.amount.u128() / 500).max(2) & !1u128, a0.denom.clone())]));
+                }
+                let mut all: Vec<Coin> = pi.assets.iter().map(|a| coin((a.amount.u128() / 1000).max(1), a.denom.clone())).collect();
+                all.sort_by(|x, y| x.denom.cmp(&y.denom));
+                variants.push(("all".into(), all));
+                for (vn, funds) in variants {
+                    let (pid2, posid2, funds2) = (pid.clone(), posid.clone(), funds.clone());
+                    cells.push((
+                        format!("pm.lock_{vn}.{posid}"),
+                        Box::new(move |s, _| Op::Pm {
+                            sender: s.to_string(),
+                            msg: PmMsg::ProvideLiquidity {
+                                liquidity_max_slippage: None,
+                                swap_max_slippage: Some(Decimal::percent(50)),
+                                receiver: None,
+                                pool_identifier: pid2.clone(),
+                                unlocking_duration: Some(dur),
+                                lock_position_identifier: Some(posid2.clone()),
+                            },
+                            funds: funds2.clone(),
+                        }),
+                        Rule::PositionOwner(p.receiver.to_string()),
+                        true,
+                    ));
+                }
+            }
+        }
         // ---- roles
         let mut roles: BTreeSet<String> = BTreeSet::new();
         for x in [&a.owner, &a.owner2, &a.stranger, &a.pm, &a.fm] {
